@@ -147,7 +147,7 @@ Dropped(S, c, D) == LET f == FileNamed(S, c.f) IN
 (* Both are sequences of [xml, attr, w, target, ns].                                                  *)
 Idx(fs, x) == {i \in 1..Len(fs) : fs[i].xml = x.xml /\ fs[i].attr = x.attr}
 FieldViol(exp, got) ==
-     {[clause |-> "one_field", subj |-> e.xml, exp |-> "1", got |-> ToString(Cardinality(Idx(got, e)))] :
+     {[clause |-> "one_field", subj |-> e.xml, exp |-> ToString(Cardinality(Idx(exp, e))), got |-> ToString(Cardinality(Idx(got, e)))] :
          e \in {x \in ZRange(exp) : Cardinality(Idx(got, x)) # Cardinality(Idx(exp, x))}}
   \cup {[clause |-> "wrapper", subj |-> e.xml, exp |-> e.w, got |-> g.w] :
          <<e, g>> \in {<<x, y>> \in ZRange(exp) \X ZRange(got) : x.xml = y.xml /\ x.attr = y.attr /\ x.w # y.w
